@@ -373,8 +373,13 @@ impl McnkChunk {
             // Read the 8-byte chunk header (magic + size, where size is always 0)
             let _chunk_header = ChunkHeader::read_le(reader)?;
 
-            // Read the actual data using size_liquid from MCNK header
-            let mut data = vec![0u8; header.size_liquid as usize];
+            // Read the actual data using size_liquid from MCNK header; that size counts the
+            // 8-byte chunk header just read (8 means "no liquid")
+            let data_pos = reader.stream_position()?;
+            let end = reader.seek(SeekFrom::End(0))?;
+            reader.seek(SeekFrom::Start(data_pos))?;
+            let data_len = u64::from(header.size_liquid.saturating_sub(8)).min(end.saturating_sub(data_pos));
+            let mut data = vec![0u8; data_len as usize];
             reader.read_exact(&mut data)?;
 
             if !data.is_empty() {
